@@ -1,4 +1,4 @@
-\* quick, safety: the dialer node at the code's grain, every interleaving, no clocks; the listener side is an adversary (2 moves)
+\* full, safety: dialer node, adversary with 2 moves, CancelBackends at any point
 SPECIFICATION Spec
 CONSTANTS
   Links = {1}
@@ -15,7 +15,7 @@ CONSTANTS
   BSilence = 0
   BCut = 0
   ShutNodes = {}
-  CancelNodes = {}
+  CancelNodes = {"a"}
   BReborn = 0
   BAdv = 2
   BIdle = 1
